@@ -17,11 +17,16 @@ def sumTo (n : Nat) (f : Nat → Rat) : Rat := listSum ((List.range n).map f)
 def mean (n : Nat) (y : Nat → Rat) : Rat := sumTo n y / n
 
 /-- `np.cov(…, bias=True)` entry -/
-def covB (n : Nat) (x y : Nat → Rat) : Rat := sumTo n (fun i => (x i - mean n x) * (y i - mean n y)) / n
+def covB (n : Nat) (x y : Nat → Rat) : Rat :=
+  let mx := mean n x      -- the means are computed once (as numpy does), not once per term
+  let my := mean n y
+  sumTo n (fun i => (x i - mx) * (y i - my)) / n
 def varB (n : Nat) (y : Nat → Rat) : Rat := covB n y y
 
 /-- `np.std(…, ddof=1)²` -/
-def varU (n : Nat) (y : Nat → Rat) : Rat := sumTo n (fun i => (y i - mean n y) * (y i - mean n y)) / (n - 1)
+def varU (n : Nat) (y : Nat → Rat) : Rat :=
+  let m := mean n y
+  sumTo n (fun i => (y i - m) * (y i - m)) / (n - 1)
 
 /-- `mc_stddev²` per payoff component: unbiased variance over the number of paths (`simulations.shape[0]`) -/
 def stderrSq (n : Nat) (y : Nat → Rat) : Rat := varU n y / n
@@ -49,5 +54,57 @@ def storeLoop (mk : Nat → Rat) : (start n : Nat) → List (Option Rat) → Lis
 
 def stdRows (n : Nat) (df notional : Rat) (payoff : Nat → Rat) : List (Option Rat) :=
   storeLoop (fun i => df * (notional * payoff i)) 0 n (List.replicate n none)
+
+/-! ### vector payoffs and k controls: the shapes `compute_coefficients` works with (product.py:229-251)
+
+`Y` has shape (n, d) (d = payoff dimension), the control array `X` shape (n, k, d): a control with a scalar payoff is
+broadcast to all d components, a control with vector strikes contributes its own component.  The loop
+`for k, (xx, yy) in enumerate(zip(X.T, Y.T))` runs over the d payoff components: **one coefficient vector (of length k) per
+payoff component**, computed from column c of Y and the k columns `X[:, :, c]`, over all n rows; prices: scalar prices are
+shared by all components, vector prices are indexed by the component.  The regression kernel
+(`helper_compute_coefficients`, product.py:198-227): biased covariances; if the smallest absolute entry of Σ_X — diagonal
+or off-diagonal — is below 1e-12 the coefficients are 0; otherwise `pinv(Σ_X) Σ_XY`. -/
+
+/-- a regression kernel: (n, the k control columns, the payoff column) ↦ coefficient vector -/
+abbrev Kernel := Nat → (Nat → Nat → Rat) → (Nat → Rat) → Nat → Rat
+
+def kernel1 : Kernel := fun n x y _ => bStar n (x 0) y
+
+/-- the exact two-control kernel: guard on all four entries of Σ_X, inverse of Σ_X when it is regular, Moore–Penrose
+    pseudo-inverse `Σ_X / (tr Σ_X)²` of the (rank one, positive semi-definite) matrix when it is singular -/
+def kernel2 : Kernel := fun n x y j =>
+  let a := varB n (x 0)
+  let d := varB n (x 1)
+  let c := covB n (x 0) (x 1)
+  let s0 := covB n (x 0) y
+  let s1 := covB n (x 1) y
+  if rabs a < guard ∨ rabs d < guard ∨ rabs c < guard then 0
+  else
+    let det := a * d - c * c
+    if det = 0 then
+      let t := (a + d) * (a + d)
+      if j = 0 then (a * s0 + c * s1) / t else if j = 1 then (c * s0 + d * s1) / t else 0
+    else
+      if j = 0 then (d * s0 - c * s1) / det else if j = 1 then (a * s1 - c * s0) / det else 0
+
+/-- the code's kernel for k ≤ 2 controls (k ≥ 3: `numpy.linalg.pinv` is not modelled; the theorems take the kernel as a parameter) -/
+def kernelOf (k : Nat) : Kernel := if k = 1 then kernel1 else if k = 2 then kernel2 else fun _ _ _ _ => 0
+
+/-- the adjusted array of a vector payoff: component c of path i.  `y c i`, `x j c i` (control j), `pr j c` (price of
+    control j for component c: constant in c for scalar prices) -/
+def adjustVec (k : Nat) (ker : Kernel) (pr : Nat → Nat → Rat) (x : Nat → Nat → Nat → Rat) (y : Nat → Nat → Rat) (n : Nat) :
+    Nat → Nat → Rat :=
+  fun c => adjustK k (ker n (fun j => x j c) (y c)) (fun j => pr j c) (fun j => x j c) (y c)
+
+/-- the coefficient vector used for component c -/
+def coefVec (k : Nat) (ker : Kernel) (x : Nat → Nat → Nat → Rat) (y : Nat → Nat → Rat) (n c : Nat) : List Rat :=
+  (List.range k).map (ker n (fun j => x j c) (y c))
+
+/-- column c of the adjusted array as the code builds it: the coefficient vector of the component is computed ONCE from all
+    n rows (`b_star`), then applied to every row (= `(List.range n).map (adjustVec … c)`, theorem `adjustVecRow_eq`) -/
+def adjustVecRow (k : Nat) (ker : Kernel) (pr : Nat → Nat → Rat) (x : Nat → Nat → Nat → Rat) (y : Nat → Nat → Rat) (n c : Nat) :
+    List Rat :=
+  let b := coefVec k ker x y n c
+  (List.range n).map (adjustK k (fun j => b.getD j 0) (fun j => pr j c) (fun j => x j c) (y c))
 
 end Rpylib.Stats
